@@ -185,12 +185,12 @@ def main():
     surv = [r for r in results if r not in killed and r not in errors]
     if a.cross:
         others = [c["property_id"] for c in json.load(open(os.path.join(VERIF, "MANIFEST.json")))["checks"] if c["property_id"] != a.pid]
-        index = {(r["path"], r["line"], r["kind"], r["what"]): r for r in surv}
+        index = {r["k"]: r for r in surv}
         jobs = [(r["k"], cand[r["k"]]) for r in surv]
         with ThreadPoolExecutor(a.jobs) as ex:
             for r2 in ex.map(lambda j: run(j, others), jobs):
-                if r2 and (r2["path"], r2["line"], r2["kind"], r2["what"]) in index:
-                    index[(r2["path"], r2["line"], r2["kind"], r2["what"])]["cross"] = [c for c, v in r2["verdict"].items() if v == "VIOLATION"]
+                if r2 and r2["k"] in index:
+                    index[r2["k"]]["cross"] = [c for c, v in r2["verdict"].items() if v == "VIOLATION"]
     print(f"{a.pid}: {len(results)} mutants in the anchored ranges: {len(killed)} reported as violations, {len(errors)} analysis errors (no verdict), {len(surv)} silent")
     for r in sorted(surv, key=lambda r: (r["path"], r["line"])):
         print(f"  SILENT {r['path']}:{r['line']} [{r['kind']}] {r['what']} :: {r['source']}" + (f"   <- caught by {','.join(r['cross'])}" if r.get("cross") else ""))
